@@ -543,6 +543,14 @@ def native_laws(rng, ncases):
             bad.append(("channel permutation changes features", T, C))
         if not np.array_equal(perm[df3["peak_trace_idx"].to_numpy()], df["peak_trace_idx"].to_numpy()):
             bad.append(("channel permutation: peak channel", T, C))
+        # the same batch in another memory layout (a view of waveforms stored as (wav, trace, time), the result of a fancy channel selection, Fortran order)
+        for lay, arr_l in (("swapaxes view", np.swapaxes(np.ascontiguousarray(np.swapaxes(a0, 1, 2)), 1, 2)), ("fancy-indexed channels", a0[:, :, perm][:, :, np.argsort(perm)]), ("fortran order", np.asfortranarray(a0))):
+            try:
+                dfl = W.compute_spike_features(arr_l)
+                if not np.allclose(df.to_numpy(float), dfl.to_numpy(float), equal_nan=True):
+                    bad.append(("features depend on the memory layout of the batch", lay, T, C))
+            except Exception as e:
+                bad.append(("non contiguous batch raised", lay, T, C, repr(e)[:80]))
         # the same spikes cut with another window length (same peak positions, fewer / more samples), right after the batch above and again
         # after an unrelated batch: a feature table depends on the batch at hand only, not on what was computed before it
         pk = df["peak_time_idx"].to_numpy()
